@@ -429,12 +429,12 @@ impl Model for M {
             if s.depth >= 2 {
                 rec.nontrivial.insert(s.key);
             }
-            let last = match s.hist.last() {
-                None => "init".to_string(),
-                Some(Act::Add(k)) => kind_key(&m.menu[*k]).map(|x| format!("add-{}", x.0)).unwrap_or("add-body".into()),
-                Some(Act::Concat(_)) => "concat".to_string(),
-                Some(o) => format!("{o:?}"),
-            };
+            // outcome class: a function of the state alone (not of the history that happened to reach it
+            // first, which depends on the order in which the parallel search visits states)
+            let li = s.prog.to_instructions();
+            let kinds: BTreeSet<&'static str> = li.iter().filter_map(|i| kind_key(i).map(|k| k.0)).collect();
+            let body = li.iter().filter(|i| kind_key(i).is_none()).count();
+            let last = format!("depth{}:definition-kinds{}:body{}", s.depth, kinds.len(), body.min(3));
             *rec.by_last.entry(last).or_default() += 1;
             if m.which == Which::C10 {
                 // two states with identical listing but different used-qubit sets
@@ -581,7 +581,7 @@ fn run_model(ctx: &mut Ctx, id: &str, which: Which, name: &str, menu: Vec<Instru
     ctx.outcome(&format!("{name}:states"));
     *ctx.outcomes.get_mut(&format!("{name}:states")).unwrap() = unique;
     for (k, v) in &r.by_last {
-        *ctx.outcomes.entry(format!("{name}:last={k}")).or_default() += *v;
+        *ctx.outcomes.entry(format!("{name}:{k}")).or_default() += *v;
     }
     ctx.bound(&format!("{name}"), json!({"actions": nactions, "depth": depth, "unique_states": unique, "transitions": generated, "max_depth_reached": maxd, "completed": done, "dfs_bfs_agree": bfs_unique}));
     if !done {
